@@ -512,6 +512,39 @@ def rule_open_atomic(chk, prog):
                           "replaced by a later ftruncate): a packer killed in between leaves the previous, complete image in place")
 
 
+def rule_super_one_write(chk, lib):
+    """K11-onewrite: the commit is one write.  Readers tell a finished image from an unfinished one by the super block; between
+    two writes of parts of it the file holds a mixture of the provisional and the final values that no guard was designed for.
+    In sqfs_super_write (and the static helpers it calls) every sqfs_file_t.write_at is a write of the whole structure at
+    offset 0, outside any loop."""
+    f = lib.need_fn("sqfs_super_write")
+    f.build()
+    cl, _e, _u = lib.reachable_from([f], stop=lambda g, u=f.unit: g.unit is not u)
+    st = lib.struct("struct.sqfs_super_t", f.unit)
+    size = st["size"] if st and "size" in st else 96
+    n = 0
+    for g in cl:
+        if g.decl:
+            continue
+        g.build()
+        for c in g.calls():
+            if slot_call(c) != ("struct.sqfs_file_t", "write_at") or len(c.ops) < 4:
+                continue
+            n += 1
+            chk.analysed(g)
+            inst = "%s:write_at@%d" % (g.name, c.line)
+            off, ln = c.ops[1], c.ops[3]
+            whole = off.is_const and off.is_int and off.sval == 0 and ln.is_const and ln.is_int and ln.uval == size
+            looped = any(c.bb in body for (_h, body) in g.loops)
+            if whole and not looped:
+                chk.ok("K11-onewrite", inst, c, "the super block goes out as one write of %d bytes at offset 0" % size)
+            else:
+                chk.violation("K11-onewrite", inst, c, "the super block is written in parts (%s): a run that is killed between two of "
+                              "these writes leaves a super block made of provisional and final fields, which the readers' guards "
+                              "do not all reject" % ("inside a loop" if looped else "not the whole structure at offset 0"))
+    return n
+
+
 def run(chk):
     chk.explanation = (
         "Effect-ordering rules (K11/K12/K2/K1) on the image writer, decided on LLVM IR with a may-write-output "
@@ -520,7 +553,7 @@ def run(chk):
         "sizeof(super) and is not modified before it is written; in sqfs_writer_finish the single final "
         "sqfs_super_write dominates the success return and nothing but an append-only padding helper writes after it; "
         "only the writer's init/finish call sqfs_super_write and only it writes at offset 0; the readers reject the "
-        "provisional state; both packers write nothing after finish. K11-commitguard: the failure edge of a stage of a packer's main does not reach sqfs_writer_finish and the stage's result is tested before finish is reachable; K2-nosignal: the packers install no signal handler (a caught signal would let the run go on to the commit).")
+        "provisional state; both packers write nothing after finish. K11-commitguard: the failure edge of a stage of a packer's main does not reach sqfs_writer_finish and the stage's result is tested before finish is reachable; K11-onewrite: sqfs_super_write issues the super block as one write of the whole structure at offset 0; E4-replaced (of C13, over both packers): the status of a stage is not replaced by the status of a later call unexamined; K2-nosignal: the packers install no signal handler (a caught signal would let the run go on to the commit).")
     chk.assumptions = ["that every reader rejects every intermediate prefix depends on which bytes the kernel flushed; "
                        "the rules decide the ordering of the writes the process issues"]
     lib = load_program("libsquashfs.la")
@@ -537,6 +570,16 @@ def run(chk):
         rule_commit_guard(chk, prog, tool)
         rule_no_signal(chk, prog, tool)
     rule_open_atomic(chk, lib)
+    rule_super_one_write(chk, lib)
+    chk.floor("K11-onewrite", 1)
+    # "committed only after all data is written": a failure while packing reaches main's decision -- it is not replaced by
+    # the status of something that ran after it (E4-replaced of C13, over the two packers)
+    from .c13 import rule_e4_replaced
+    from ..errflow import ErrModel
+    seen_r = set()
+    for tool in ("gensquashfs", "tar2sqfs"):
+        pt = load_program(tool)
+        rule_e4_replaced(chk, pt, ErrModel(pt), tool, seen_r)
     chk.floor("K11-commitguard", 2)
     chk.floor("K2-nosignal", 2)
     chk.floor("K12-open", 1)
